@@ -132,8 +132,12 @@ pub fn piece_value_indicator(square: Square, piece: arimaa_engine_step::Piece, i
 /// Abstract `Zobrist::move_piece` for the repetition predicates: two arbitrary values X_SAME /
 /// X_OTHER (by the new side-to-move flag), after checking that the engine asks about the right
 /// board (EXPECT words, set by the harness), step 0.
-pub static mut X_SAME: u64 = 0;
-pub static mut X_OTHER: u64 = 0;
+pub fn x_same_of(h: u64) -> u64 {
+    h.rotate_left(17) ^ 0x9E37_79B9_7F4A_7C15
+}
+pub fn x_other_of(h: u64) -> u64 {
+    h.rotate_left(41) ^ 0xC2B2_AE3D_27D4_EB4F
+}
 pub static mut EXPECT: [u64; 8] = [0; 8];
 pub static mut EXPECT_ON: bool = false;
 
@@ -162,7 +166,12 @@ pub fn zobrist_move_piece_abstract(
         // digest of the board so that different actions get different (arbitrary) values
         let dig = nb.p1_pieces ^ nb.rabbits.rotate_left(7) ^ nb.cats.rotate_left(13) ^ nb.dogs.rotate_left(19)
             ^ nb.horses.rotate_left(29) ^ nb.camels.rotate_left(37) ^ nb.elephants.rotate_left(43);
-        let x = if new_p1 == prev.is_p1_turn_to_move() { X_SAME } else { X_OTHER };
+        // the two "arbitrary" values are fixed scramblings of the (symbolic, arbitrary) state hash:
+        // no static is written by the harnesses that do not check the board (writing a static mut
+        // made unrelated constants such as the capacity of `Vec::new()` nondeterministic for CBMC -
+        // spurious CUT failures in push-pending instances)
+        let h = _z.board_state_hash();
+        let x = if new_p1 == prev.is_p1_turn_to_move() { x_same_of(h) } else { x_other_of(h) };
         arimaa_engine_step::Zobrist::from_raw(x ^ dig)
     }
 }
